@@ -314,6 +314,30 @@ def entity_rule(ctx):
     for n in sir.walk_reach(tc, f, 2):
         if n.get("k") == "mcall" and n["m"] in STD and not n["args"]:
             sets.append(STD[n["m"]])
+    # `ch.is_digit(radix)`: radix 16 is the hex class, radix 10 the decimal one; a radix parameter of a helper takes the literal of
+    # every call site
+    RADIX = {"16": [("0", "9"), ("A", "F"), ("a", "f")], "10": [("0", "9")]}
+    for g in sir.reach(tc, f, 2):
+        pn = g.param_names()
+        for n in sir.walk(g.body):
+            if n.get("k") == "mcall" and n["m"] == "is_digit" and len(n["args"]) == 1:
+                a = sir.strip_ref(n["args"][0])
+                vals = []
+                if a.get("k") == "lit":
+                    vals = [str(a.get("v")).replace("u32", "")]
+                elif a.get("k") == "path" and len(a["segs"]) == 1 and a["segs"][0] in pn:
+                    pi = pn.index(a["segs"][0])
+                    shift = 1 if pn and pn[0] == "self" else 0
+                    for h in sir.reach(tc, f, 2):
+                        for c in sir.walk(h.body):
+                            if c.get("k") in ("call", "mcall") and sir.call_name(c) == g.name:
+                                args = c["args"]
+                                ix = pi - (shift if c.get("k") == "mcall" else 0)
+                                if 0 <= ix < len(args) and sir.strip_ref(args[ix]).get("k") == "lit":
+                                    vals.append(str(sir.strip_ref(args[ix]).get("v")).replace("u32", ""))
+                for v in vals:
+                    if v in RADIX:
+                        sets.append(RADIX[v])
     want_hex = [("0", "9"), ("A", "F"), ("a", "f")]
     want_dec = [("0", "9")]
     want_name = [("A", "Z"), ("a", "z")]
